@@ -144,7 +144,8 @@ class TopicWorld:
 
     def discarded(self, event):
         if event.event_type == "topic_message":
-            self.log("disc", k=self.kof(event.context.get("payload")), c=self.cidx(event.target))
+            self.log("disc", k=self.kof(event.context.get("payload")), c=self.cidx(event.target),
+                     x=event.time.nanoseconds // self.tick_ns)     # x = the instant the event was stamped with
 
     def run(self):
         sc = self.sc
